@@ -410,7 +410,32 @@ def parseDims (s : String) : Option Fend.Units.Dims :=
       | some b, some e => some (b, e) | _, _ => none
     | _ => none
 
-/-- `convert <x> <scaleA> <dimsA> <scaleB> <dimsB>` | `add <x> <scaleA> <dimsA> <y> <scaleB> <dimsB>`
+/-- prefix notation: `L dims | M a b | D a b | P q a e | A z a b | C a b | F a | G a b` -/
+def parseTree : Nat → List String → Option (Fend.Units.UExpr × List String)
+  | 0, _ => none
+  | fuel + 1, toks =>
+    let two (rest : List String) (k : Fend.Units.UExpr → Fend.Units.UExpr → Fend.Units.UExpr) :=
+      match parseTree fuel rest with
+      | some (a, rest) => match parseTree fuel rest with
+        | some (b, rest) => some (k a b, rest)
+        | none => none
+      | none => none
+    match toks with
+    | "L" :: d :: rest => (parseDims d).map fun d => (.leaf d, rest)
+    | "M" :: rest => two rest .mul
+    | "D" :: rest => two rest .div
+    | "P" :: q :: rest => match parseQ q with
+      | some q => two rest (fun a e => .pow a e q)
+      | none => none
+    | "A" :: z :: rest => two rest (.add (z = "1"))
+    | "C" :: rest => two rest .conv
+    | "F" :: rest => match parseTree fuel rest with
+      | some (a, rest) => some (.fn1 a, rest)
+      | none => none
+    | "G" :: rest => two rest .fn2
+    | _ => none
+
+/-- `convert <x> <scaleA> <dimsA> <scaleB> <dimsB>` | `tree <prefix form>` | `add <x> <scaleA> <dimsA> <y> <scaleB> <dimsB>`
  | `dims mul|div <dimsA> <dimsB>` | `dims pow <dimsA> <q>`; base ids 0..39 are compared -/
 def unitsLine (line : String) : String :=
   let bases := List.range 40
@@ -432,6 +457,13 @@ def unitsLine (line : String) : String :=
       | some r => "ok " ++ showRatQ r
       | none => "incompatible"
     | _, _, _, _, _, _ => "bad-op"
+  | "tree" :: toks =>
+    match parseTree (toks.length + 1) toks with
+    | some (t, []) =>
+      match Fend.Units.dimsOf bases t with
+      | some d => "ok " ++ showDims (Fend.Units.reduce d).1
+      | none => "incompatible"
+    | _ => "bad-op"
   | ["dims", op, da, db] =>
     match parseDims da with
     | none => "bad-op"
